@@ -109,7 +109,8 @@ where
                 serde_json::json!({"panic_location": c.location, "panic_message": c.message}),
             );
         } else {
-            r.inconclusive(format!("harness panic in {} case {} at {}: {}", sub, id, c.location, c.message));
+            r.inconclusive(format!("harness panic in {} at {}: {} (first case id {})", sub, c.location, c.message, id).split(" (first case id").next().unwrap().to_string());
+            r.note(format!("harness panic in {} case {}", sub, id));
         }
     }
 }
